@@ -2898,9 +2898,31 @@ def _mod_random(I):
 
     def seed(it, a, k):
         return None
+
+    # random.Random(): a private generator.  It is NOT governed by random.seed() nor by the recorded
+    # stream of the module-level functions: every draw is a fresh symbolic value, also on a replayed run.
+    rcls = ClassObj(I, "Random", [I.builtins["object"]], {}, module="random")
+
+    def fresh_randint(it, a, k):
+        saved, I.rng_replay = I.rng_replay, None
+        try:
+            return randint(it, a[1:], k)
+        finally:
+            I.rng_replay = saved
+
+    def fresh_sample(it, a, k):
+        saved, I.rng_replay = I.rng_replay, None
+        try:
+            return sample(it, a[1:], k)
+        finally:
+            I.rng_replay = saved
+    for nm, f in (("randint", fresh_randint), ("sample", fresh_sample)):
+        nf_ = NativeFunc(f, "Random." + nm)
+        nf_.is_method = True
+        rcls.ns[nm] = nf_
     return PModule("random", {"randint": NativeFunc(randint, "random.randint"),
                               "sample": NativeFunc(sample, "random.sample"),
-                              "seed": NativeFunc(seed, "random.seed")})
+                              "seed": NativeFunc(seed, "random.seed"), "Random": rcls})
 
 
 STUB_MODULES["random"] = _mod_random
